@@ -9,7 +9,7 @@
    opaque or chained keys), its view of the struct type, its own document, and the observed
    projection of the target onto its fields. *)
 From Coq Require Import List ZArith Bool String Ascii.
-From GZ Require Export C08.Model C08.Spec C08.KModel C08.KSpec.
+From GZ Require Export C08.Model C08.Spec C08.KModel C08.KSpec C08.TagModel.
 Import ListNotations.
 Open Scope Z_scope.
 
@@ -23,7 +23,9 @@ Record ocall := mkOCall
   { oc_passes : list opass;
     oc_validator : option bool;  (* httpx.SetValidator: Some b = installed, accepts iff b *)
     oc_called : bool;            (* observed: the validator ran *)
-    oc_verdict : verdict }.      (* observed: nil error / error / recovered panic *)
+    oc_verdict : verdict;        (* observed: nil error / error / recovered panic *)
+    oc_tags : list (string * string * option fopts) }.
+                                 (* tag texts written by the generator: (text, key, options it stands for) *)
 
 Fixpoint gval_eqb (a b : gval) {struct a} : bool :=
   match a, b with
@@ -87,8 +89,13 @@ Fixpoint vals_agree (vs : list gval) (ps : list opass) : bool :=
   | _, _ => false
   end.
 
+(* every tag text means, by the tag grammar of TagModel.v, what the generator claims *)
+Definition tags_ok (c : ocall) : bool :=
+  forallb (fun t => claim_ok (fst (fst t)) (snd (fst t)) (snd t)) (oc_tags c).
+
 (* the model reproduces the implementation's verdict, decoded values and validator call *)
 Definition agrees1 (m : cresult) (c : ocall) : bool :=
+  tags_ok c &&
   if in_scope c then
     match m, oc_verdict c with
     | CAccepted vs, VOk => vals_agree vs (oc_passes c) && Bool.eqb (oc_called c) (is_some (oc_validator c))
